@@ -597,18 +597,19 @@ theorem opWrite_decode (e : Endian) (enc : Encoding) (uo : UnitOffs) (hasRefs : 
       rw [po_f2]; exact key
   | piece n =>
     refine ⟨.piece (n * 8) none, by simp [opImage, image], ?_⟩
-    simp only [opWrite, Out.ok.injEq, Prod.mk.injEq] at hw
-    rw [← hw.1]
-    simp only [List.cons_append, parse_cons]
-    show Op.parseOperands e enc 0x93 _ = _
-    have hwf' : n < 2 ^ 61 := hwf
-    have h64 : n < 2 ^ 64 := by
-      have : (2:Nat) ^ 61 < 2 ^ 64 := by decide
-      omega
-    have h8 : n * 8 < 2 ^ 64 := by
-      have : (2:Nat) ^ 61 * 8 = 2 ^ 64 := by decide
-      omega
-    simp [po_93, Leb.unsigned_roundtrip n h64, h8]
+    simp only [opWrite] at hw
+    split at hw
+    · cases hw
+    · rename_i hfit
+      simp only [Out.ok.injEq, Prod.mk.injEq] at hw
+      rw [← hw.1]
+      simp only [List.cons_append, parse_cons]
+      show Op.parseOperands e enc 0x93 _ = _
+      have hq : ((2:Nat) ^ 64 - 1) / 8 = 2 ^ 61 - 1 := by decide
+      have h61 : (2:Nat) ^ 61 * 8 = 2 ^ 64 := by decide
+      have h64 : n < 2 ^ 64 := hwf
+      have h8 : n * 8 < 2 ^ 64 := by rw [hq] at hfit; omega
+      simp [po_93, Leb.unsigned_roundtrip n h64, h8]
   | bitPiece s o =>
     refine ⟨.piece s (some o), by simp [opImage, image], ?_⟩
     simp only [opWrite, Out.ok.injEq, Prod.mk.injEq] at hw
